@@ -145,6 +145,13 @@ def manual_leaf(x):
             refs = [r for r in gc.get_referents(o)
                     if isinstance(r, (types.CoroutineType, types.GeneratorType, types.AsyncGeneratorType))]
             tn = type(o).__name__
+            if tn == "anext_awaitable":
+                from vlib import chains
+                ent = chains.ANEXT_WRAPS.get(id(o))
+                if ent is None or ent[0] is not o:
+                    return _UNKNOWN
+                o = ent[1]
+                continue
             if tn in ("coroutine_wrapper", "async_generator_asend", "async_generator_athrow"):
                 if len(refs) != 1:
                     return _UNKNOWN
